@@ -1,7 +1,7 @@
 From Coq Require Import List Arith ZArith Bool.
 Import ListNotations.
 From UJ Require Import Obs.Progress Obs.Notify Obs.NotifyProofs.
-From UJ Require Engine.Engine Obs.EngineTrace.
+From UJ Require Engine.Engine Obs.EngineTrace Run.Api.
 Open Scope Z_scope.
 
 Theorem C15_wellformed :
@@ -74,3 +74,12 @@ Theorem C15_engine_success_all_started :
   forall n : nat, In n (Engine.nodes (Engine.g c)) -> In n (starts (rev (EngineTrace.to_eev (Engine.hist s)))).
 Proof. exact EngineTrace.engine_success_all_started. Qed.
 Print Assumptions C15_engine_success_all_started.
+
+(** Whatever the arguments of an accepted [run] (Run/Api.v), the observer is entered before anything else and exited after
+    everything else, exactly once each. *)
+Theorem C15_observer_brackets_the_run :
+  forall (a : Api.args) (l : list Api.step) (b : bool),
+  Api.run_api a = Api.Steps l b ->
+  exists body, l = Api.StEnter :: body ++ [Api.StExit] /\ ~ In Api.StEnter body /\ ~ In Api.StExit body.
+Proof. exact Api.observer_brackets. Qed.
+Print Assumptions C15_observer_brackets_the_run.
